@@ -68,7 +68,7 @@ func SelfTest(r *core.Run, prop, repo, verif string) {
 		name, status, detail string
 	}
 	results := make([]result, len(ms))
-	sem := make(chan struct{}, 6)
+	sem := make(chan struct{}, 3)
 	var wg sync.WaitGroup
 	for i, m := range ms {
 		wg.Add(1)
